@@ -112,6 +112,14 @@ Section Unmarshal.
   Definition upaths (f : finfo) : list (list str) :=
     if o_prefer_shadow opts && negb (nil_b (f_spaths f)) then f_spaths f else f_paths f.
 
+  (* the Go enum type of a key leaf whose (leafref-resolved) type is an enumeration/identityref *)
+  Fixpoint enum_key_type (t : ytype) : option str :=
+    match t with
+    | YEnum ty | YIdref ty => Some ty
+    | YLeafref t' => enum_key_type t'
+    | _ => None
+    end.
+
   (* key tuple of an entry from its key leaves (makeKeyForInsert / getKeyValue) *)
   Fixpoint entry_key (sfs : list (finfo * schema)) (keys : list str) (fs : list (str * tree)) : result (list scalar) :=
     match keys with
@@ -125,8 +133,11 @@ Section Unmarshal.
             | _ =>
                 (* an enum-typed key field is an int64, not a pointer: unset reads as 0 *)
                 match ks with
-                | SLeaf (YEnum ty) _ | SLeaf (YIdref ty) _ =>
-                    bind (entry_key sfs rest fs) (fun r => Ok (VEnum ty 0 :: r))
+                | SLeaf kt _ =>
+                    match enum_key_type kt with
+                    | Some ty => bind (entry_key sfs rest fs) (fun r => Ok (VEnum ty 0 :: r))
+                    | None => Err
+                    end
                 | _ => Err
                 end
             end
